@@ -147,7 +147,8 @@ def coq_assumptions(pid, module, theorems, allow=()):
     os.makedirs(d, exist_ok=True)
     path = os.path.join(d, "Assum_%s.v" % pid)
     with open(path, "w") as f:
-        f.write("From Syc Require Import Props.%s.\n" % module)
+        for m in module.split("+"):
+            f.write("From Syc Require Import Props.%s.\n" % m)
         for t in theorems:
             f.write('Goal True. idtac "@@THM %s". exact I. Qed.\nPrint Assumptions %s.\n' % (t, t))
     rc, out = coqc_file(path)
